@@ -11,6 +11,7 @@ core/timex/ticker.go (what the extractor reads from them now = what Clients.lean
 -/
 import GoZero.Extracted.C12
 import GoZero.C12.Clients
+import GoZero.C12.Deliver
 namespace GoZero.C12.TieClients
 open GoZero.C12
 open GoZero.Extracted.C12
@@ -172,5 +173,93 @@ theorem tie_tasksOwned :
     ∧ drainTasksDecl =
       ["var tasks []timingTask", "tasks = append(tasks, timingTask{ key: task.key, value: task.value, })",
        "task := tasks[i]"] := by decide
+
+/-! ### round 5c: where the recovery sits (typed nesting, read off the AST) -/
+
+/-- does the construct recover a panic of what it encloses? (GoSafe / RunSafe: `defer rescue.Recover()`;
+TaskRunner.Schedule: its goroutine defers rescue.Recover) -/
+def Nest.recovers : Nest → Bool
+  | .goSafe | .runSafe | .schedule => true
+  | _ => false
+
+/-- does the construct start a goroutine for what it encloses? -/
+def Nest.spawns : Nest → Bool
+  | .go | .goSafe | .schedule => true
+  | _ => false
+
+/-- the recover scope of a delivery, from the constructs around the callback's call (outermost first): a
+recovering construct INSIDE the loop → per task; only outside → around the loop; none → no recovery at all. -/
+def scopeOf (path : List Nest) : Option Scope :=
+  if ((path.dropWhile (· ≠ .loop)).drop 1).any Nest.recovers then some .perTask
+  else if (path.takeWhile (· ≠ .loop)).any Nest.recovers then some .aroundLoop
+  else none
+
+/-- a goroutine per task (inside the loop): then even Goexit ends only that task's goroutine. -/
+def goroutinePerTask (path : List Nest) : Bool := ((path.dropWhile (· ≠ .loop)).drop 1).any Nest.spawns
+
+/-- runTasks: ONE goroutine per tick, the loop inside it, the recovery inside the loop — the `Scope.perTask` of
+Deliver.lean (`panicking_callback_affects_no_other_timer`), and no goroutine per task (`goexit_loses_the_rest_of_its_tick`
+is the behaviour of the code).  Seeded C12-9 gives `[.goSafe, .loop]`: `some .aroundLoop`. -/
+theorem tie_runTasksScope :
+    runTasksNest = [.go, .loop, .runSafe] ∧ scopeOf runTasksNest = some .perTask
+    ∧ goroutinePerTask runTasksNest = false := by decide
+
+/-- drainAll's delivery: one goroutine hands out, and every task gets a goroutine of its own that recovers
+(TaskRunner.Schedule): neither a panic nor Goexit in a Drain callback touches another task. -/
+theorem tie_drainScope :
+    drainNest = [.go, .loop, .schedule] ∧ scopeOf drainNest = some .perTask ∧ goroutinePerTask drainNest = true := by decide
+
+/-- MoveTimer below one interval: the callback runs on a recovering goroutine of its own, outside any loop. -/
+theorem tie_moveImmediateScope :
+    moveImmediateNest = [.goSafe] ∧ (moveImmediateNest.any Nest.recovers ∧ moveImmediateNest.any Nest.spawns) = true := by decide
+
+/-! ### round 5c: the public methods and the run loop as typed tables, composed -/
+
+/-- the public method a call of the model is (a tick comes from the ticker, Stop closes the stop channel). -/
+def methodOfCall : Call → Option String
+  | .setTimer _ _ _ => some "SetTimer"
+  | .moveTimer _ _ => some "MoveTimer"
+  | .removeTimer _ => some "RemoveTimer"
+  | .drain => some "Drain"
+  | _ => none
+
+/-- the handler the model runs for an accepted call (`ApiG.step` → `Op` → `stepWith`). -/
+def handlerOfCall : Call → Option String
+  | .setTimer _ _ _ => some "setTask"
+  | .moveTimer _ _ => some "moveTask"
+  | .removeTimer _ => some "removeTask"
+  | .drain => some "drainAll"
+  | _ => none
+
+/-- Go: the channel the method sends on, then the handler `run` calls for what it receives from that channel. -/
+def goHandlerOfCall (c : Call) : Option String := do
+  let m ← methodOfCall c
+  let row ← apiSends.find? (·.method = m)
+  let d ← runDispatch.find? (·.chan = row.chan)
+  pure d.handler
+
+/-- [semantic, for every call]  method → channel → handler in the Go source is the handler the model runs: a method
+sending on another method's channel, or `run` dispatching a channel to another handler, breaks this. -/
+theorem tie_methodToHandler (c : Call) : goHandlerOfCall c = handlerOfCall c := by
+  cases c <;> rfl
+
+/-- every public method: the request carries exactly the caller's arguments (delay, key, value / delay, key / key / fn),
+returns nil once the loop HAS the request (send on an unbuffered channel) and ErrClosed when stopChannel is closed. -/
+theorem tie_apiSends : apiSends =
+    [⟨"SetTimer", "setChannel", [("delay", "delay"), ("key", "key"), ("value", "value")], "nil", "stopChannel", "ErrClosed"⟩,
+     ⟨"MoveTimer", "moveChannel", [("delay", "delay"), ("key", "key")], "nil", "stopChannel", "ErrClosed"⟩,
+     ⟨"RemoveTimer", "removeChannel", [("", "key")], "nil", "stopChannel", "ErrClosed"⟩,
+     ⟨"Drain", "drainChannel", [("", "fn")], "nil", "stopChannel", "ErrClosed"⟩] := by decide
+
+/-- `run`: every channel is dispatched to its handler with what was received; the tick goes to onTick; only the
+stop channel ends the loop, after stopping the ticker; each channel appears once. -/
+theorem tie_runDispatch : runDispatch =
+    [⟨"ticker.Chan()", "", "onTick", [], false⟩,
+     ⟨"setChannel", "task", "setTask", ["&task"], false⟩,
+     ⟨"removeChannel", "key", "removeTask", ["key"], false⟩,
+     ⟨"moveChannel", "task", "moveTask", ["task"], false⟩,
+     ⟨"drainChannel", "fn", "drainAll", ["fn"], false⟩,
+     ⟨"stopChannel", "", "ticker.Stop", [], true⟩]
+    ∧ (runDispatch.map (·.chan)).Nodup := by decide
 
 end GoZero.C12.TieClients
